@@ -81,6 +81,7 @@ def run(plan):
         if proto is None:
             return
         w.net.backpressure = plan.get("bp", 1 / 4096)
+        w.net.zero_watermark = bool(plan.get("wm0"))
         w.fire("backpressure")
         payloads = [det_bytes(f"burst{plan['seed']}:{i}:{n}", n) for i, n in enumerate(plan["burst"])]
         reply_state["payload"] = b"ok"
@@ -92,6 +93,8 @@ def run(plan):
                 res.fail(f"write raised {type(e).__name__}", repr(e))
                 return
         await asyncio.sleep(0.01)
+        if w.net.stats["pause_writing_called"]:
+            w.fire("transport_flow_control_callbacks")
         nbad = [v for v in dev.violations]
         if len(seen) - k0 != len(payloads):
             res.fail("encrypted request rejected by the independent decoder",
@@ -390,7 +393,7 @@ def space(tier):
         n = rng.randint(2, 6)
         return {"mode": "burst", "config": {"version": 3, "key": rand_bytes(rng, 32).hex(), "token": rand_bytes(rng, 64).hex()},
                 "burst": [rng.choice([0, 1, 13, 14, 15, 30, 62, 104, rng.randint(0, 300)]) for _ in range(n)],
-                "bp": rng.choice([1 / 4096, 1 / 1024])}
+                "bp": rng.choice([1 / 4096, 1 / 1024]), "wm0": rng.random() < 0.5}
     sp.add("burst_under_backpressure", 1500 if tier == "quick" else 400_000, burst)
 
     def counter(j, rng):
